@@ -26,6 +26,7 @@ class Checker:
                         "sa/mirfacts serialisation of MIR to JSON", "sa/engine CFG/dominator/provenance code"]
         self.fn_seen = set()
         self.extra = {}
+        self.no_evidence = False
 
     # ------------------------------------------------------------------
     def set_config(self, prog):
@@ -92,6 +93,8 @@ class Checker:
         for k in stale:
             self.note(f"stale known-finding entry (no longer matches anything): {k}")
         outdir = os.path.join(VERIF, "out", "violations")
+        if self.no_evidence:
+            outdir = os.path.join(VERIF, "out", f"scratch-{os.getpid()}")
         os.makedirs(outdir, exist_ok=True)
         n_rules = {}
         for o in self.obligations:
@@ -114,7 +117,11 @@ class Checker:
             print(f"VIOLATION property={self.pid} replay={p}")
         for n in self.notes:
             print(f"  note: {n}")
-        self.write_evidence(viol, unlisted, matched)
+        if self.no_evidence:
+            import shutil
+            shutil.rmtree(outdir, ignore_errors=True)
+        else:
+            self.write_evidence(viol, unlisted, matched)
         return 1 if unlisted else 0
 
     def write_evidence(self, viol, unlisted, matched):
